@@ -143,6 +143,9 @@ def cases(rng, tier):
                         it = "%s|%s|%s|%s|%s" % (hx(z), hx(v), ";".join(lst(p) for p in polys), lst(ev), hx(z))
                         out.append({"line": "kzgbatch %d %s %d %s" % (deg, ds, tr, it),
                                     "tags": ["aggregate-%d-polys" % npoly, "cancelling-errors-%d-%d" % (i, j)], "expect": "err:PairingCheckFailure"})
+    # setup sizes around multiples of the block sizes a chunked generation could use (degree + 6 = 64, 128, 256, 512, 1024 and ±1)
+    for deg in ([58, 122, 250, 251, 506, 1018] if tier == "quick" else [57, 58, 59, 121, 122, 123, 249, 250, 251, 505, 506, 507, 762, 1017, 1018, 1019, 2042]):
+        out.append({"line": "kzgsetup %d %s" % (deg, " ".join([draw(rng), draw(rng), draw(rng)])), "tags": ["setup", "setup-block-boundary"]})
     # zero draw is resampled
     out.append({"line": "kzgsetup 2 %s %s %s" % (draw(rng, "zero"), draw(rng), draw(rng)), "tags": ["setup-not-enough-draws"]})
     out.append({"line": "kzgsetup 0 %s %s %s" % (draw(rng), draw(rng), draw(rng)), "tags": ["setup-degree-0"], "expect": "err:DegreeIsZero"})
